@@ -608,7 +608,7 @@ def rule_d(ctx: Context, R: Reporter, cc: ClassInfo, v: FuncInfo):
                     R.check("C18.d", f"{fi.short}: option `{q}` is passed on to {callee.short}", arg is not None or has_star, fi, c,
                             msg=f"{fi.short}: takes `{q}` but calls `{unparse(c)[:50]}` without it: {callee.short} uses its own default "
                                 f"({unparse(callee.param_default(q))}) and the caller's `{q}` has no effect", key=f"pass-through:{fi.short}->{callee.short}:{q}")
-    R.floor("C18.d", "pass-through options", n_pass, 15)
+    R.floor("C18.d", "pass-through options", n_pass, 6)
     R.analysed["C18.d:positional_name_arguments"] = n_pos
     R.check("C18.d", f"no name-crossed positional argument among {n_pos} positional name arguments of internal calls", True, None, None, key="crossed-argument-scan", loc="tempest/")
 
